@@ -17,6 +17,8 @@
 (*   gen     : the <<job, h>> pairs of the static entries in the configuration   *)
 (*             file the injector generated for Prometheus (jobs the sidecar's    *)
 (*             configuration knows: KnownJobs)                                   *)
+(*   loaded  : what the shard's Prometheus runs with: gen as it was at the last      *)
+(*             reload that succeeded                                                 *)
 (***************************************************************************)
 EXTENDS Integers, Sequences, FiniteSets, SequencesExt
 
@@ -32,7 +34,7 @@ NewStatus(x) == [state |-> x.state, health |-> "unknown", err |-> FALSE, times |
 KnownJobs == {"j1", "j2"}
 GenOf(a) == {<<x.job, x.h>> : x \in {x \in Rng(a) : x.job \in KnownJobs}}
 Init0 == [assign |-> <<>>, status |-> [h \in {} |-> 0], idleAt |-> -1, clock |-> 0,
-          store |-> [has |-> FALSE, assign |-> <<>>, idleAt |-> -1], promHead |-> 0, gen |-> {}]
+          store |-> [has |-> FALSE, assign |-> <<>>, idleAt |-> -1], promHead |-> 0, gen |-> {}, loaded |-> {}]
 
 IdleRule(status, idleAt, clock) ==
   IF DOMAIN status = {} THEN (IF idleAt = -1 THEN clock ELSE idleAt) ELSE -1
@@ -50,14 +52,20 @@ RebuildStatus(old, a) ==
 Update(w, a) ==
   LET st == RebuildStatus(w.status, a)
       ia == IdleRule(st, w.idleAt, w.clock)
-  IN [w EXCEPT !.assign = a, !.status = st, !.idleAt = ia, !.store = [has |-> TRUE, assign |-> a, idleAt |-> ia], !.gen = GenOf(a)]
+  IN [w EXCEPT !.assign = a, !.status = st, !.idleAt = ia, !.store = [has |-> TRUE, assign |-> a, idleAt |-> ia], !.gen = GenOf(a), !.loaded = GenOf(a)]
 
-(* An update whose callbacks fail (the generated configuration can not be written, Prometheus  *)
-(* refuses the reload): the request is answered with an error and nothing is persisted, but the  *)
-(* bookkeeping in memory has already taken the request over - that is what the shard reports     *)
-(* from then on, and what a restart forgets.  (The failing callback modelled here is the reload:  *)
-(* the configuration file has been written.)                                                      *)
-UpdateRejected(w, a) == [Update(w, a) EXCEPT !.store = w.store]
+(* An update whose callbacks fail (the failing callback modelled here is the last one, the reload   *)
+(* of Prometheus: the configuration file has been written): the request is answered with an error,  *)
+(* nothing is persisted and Prometheus goes on with what it had loaded.                             *)
+(* RejectKeepsOld (the repaired tree): the request is not in force either - assignment, statuses      *)
+(* (state, scrape counter) and idle instant are what they were, so that the shard's report shows the   *)
+(* coordinator that it does not have what was asked for.  FALSE (the pinned tree): the bookkeeping in   *)
+(* memory has taken the request over; that is what the shard reports from then on (the coordinator,      *)
+(* seeing its plan in force, never asks again) and what a restart forgets.                               *)
+RejectKeepsOld == TRUE
+UpdateRejected(w, a) ==
+  IF RejectKeepsOld THEN [w EXCEPT !.gen = GenOf(a)]
+  ELSE [Update(w, a) EXCEPT !.store = w.store, !.loaded = w.loaded]
 
 (* Completion of one proxied scrape of hash h (A.11).  ok: the real scrape succeeded;     *)
 (* kept / total: samples after / before metric relabeling.  A scrape of an unassigned      *)
@@ -84,7 +92,7 @@ Restart(w) ==
       ia0 == w.store.idleAt
       st == [h \in Hashes(a) |-> NewStatus(ReqOf(a, h))]
       ia == IdleRule(st, ia0, w.clock)
-  IN [w EXCEPT !.assign = a, !.status = st, !.idleAt = ia, !.store = [has |-> TRUE, assign |-> a, idleAt |-> ia], !.gen = GenOf(a)]
+  IN [w EXCEPT !.assign = a, !.status = st, !.idleAt = ia, !.store = [has |-> TRUE, assign |-> a, idleAt |-> ia], !.gen = GenOf(a), !.loaded = GenOf(a)]
 
 Tick(w)       == [w EXCEPT !.clock = @ + 1]
 SetHead(w, n) == [w EXCEPT !.promHead = n]
@@ -109,5 +117,5 @@ Proj(w) ==
                    [h |-> ord[k], state |-> w.status[ord[k]].state, health |-> w.status[ord[k]].health,
                     err |-> w.status[ord[k]].err, times |-> w.status[ord[k]].times,
                     series |-> w.status[ord[k]].series, total |-> w.status[ord[k]].total]],
-   rt |-> RuntimeInfo(w), gen |-> w.gen]
+   rt |-> RuntimeInfo(w), gen |-> w.gen, loaded |-> w.loaded]
 =============================================================================
